@@ -61,6 +61,20 @@ def gen(rng, tier):      # noqa: F811
             for kind in ("add", "addne", "addap"):
                 yield {"mode": True, "ops": [[kind, p, 9]], "doc": doc}
             yield {"mode": True, "ops": [["addne", p, 9], ["addne", p, 8], ["add", p, 7]], "doc": doc}
+    # escape decoding switched off for the patch: the builder methods, the list-of-dicts form and the JSON text form must
+    # all read a path containing a backslash literally
+    bs_docs = [{"k\\u0041": 1, "kA": 2}, {"a\\nb": [1], "a\nb": [2]}, {"x": {"\\u00e9": 1, "é": 2}}, {"\\": 1, "\\\\": 2}]
+    for doc in bs_docs:
+        for loc, _ in P.all_locs(doc) if hasattr(P, "all_locs") else []:
+            pass
+        from .common import all_locs
+        for loc, _ in all_locs(doc):
+            if not loc:
+                continue
+            p = rfc6901_spell(loc)
+            for ops in ([["replace", p, 9]], [["test", p, 1], ["remove", p]], [["add", p + "x", 3], ["copy", p, "/zz"]], [["addne", p, 9]],
+                        [["move", p, "/moved"]]):
+                yield {"mode": False, "ops": ops, "doc": doc}
 
 
 to_sx = P.to_sx
